@@ -4,7 +4,7 @@ use crate::pipeline::{self, codegen, Arch, StageError};
 use printer::Print;
 use serde_json::json;
 
-pub const FAMILIES: [&str; 9] = ["seq_if", "nested_if", "seq_match2", "seq_match3", "let_chain_match", "label_critical_pair", "if_in_match", "seq_if_codata", "match_in_args"];
+pub const FAMILIES: [&str; 13] = ["seq_if", "nested_if", "seq_match2", "seq_match3", "let_chain_match", "label_critical_pair", "if_in_match", "seq_if_codata", "match_in_args", "case_of_case", "case_of_if", "dtor_of_if", "if_of_case_cond"];
 
 const DECLS: &str = "data List[A] { Nil, Cons(x: A, xs: List[A]) }\ndata Tri { T0, T1(a: i64), T2(a: i64, b: i64) }\ncodata Fun[A, B] { ap(x: A): B }\n";
 
@@ -72,6 +72,37 @@ pub fn family_source(fam: &str, k: usize) -> String {
                 sum = format!("({sum}) + (f{i}.ap[i64, i64](n))");
             }
             body.push_str(&sum);
+        }
+        "case_of_case" => {
+            // a match whose scrutinee is a match, repeatedly (consumer of the inner match is a case)
+            let mut t = String::from("w");
+            for i in 0..k {
+                t = format!("{t}.case {{ T0 => T1(n), T1(a) => T2(a, {i}), T2(a, b) => w }}");
+            }
+            body.push_str(&format!("{t}.case {{ T0 => 0, T1(a) => a, T2(a, b) => a + b }}"));
+        }
+        "case_of_if" => {
+            // the scrutinee of a match is a conditional whose branches are matches on conditionals ...
+            let mut t = String::from("l");
+            for i in 0..k {
+                t = format!("(if n == {i} {{ {t} }} else {{ l }}).case[i64] {{ Nil => l, Cons(h, t) => t }}");
+            }
+            body.push_str(&format!("({t}).case[i64] {{ Nil => 0, Cons(h, t) => h }}"));
+        }
+        "dtor_of_if" => {
+            // the receiver of a destructor is a conditional over closures built the same way
+            let mut t = String::from("new { ap(q) => q + n }");
+            for i in 0..k {
+                t = format!("new {{ ap(q) => (if q == {i} {{ {t} }} else {{ new {{ ap(r) => r }} }}).ap[i64, i64](q + 1) }}");
+            }
+            body.push_str(&format!("({t}).ap[i64, i64](n)"));
+        }
+        "if_of_case_cond" => {
+            // conditionals whose condition is a match (the consumer of the match is an integer continuation)
+            for i in 0..k {
+                body.push_str(&format!("let v{i}: i64 = if (l.case[i64] {{ Nil => {i}, Cons(h, t) => h }}) == (w.case {{ T0 => 0, T1(a) => a, T2(a, b) => b }}) {{ n }} else {{ {i} }}; "));
+            }
+            body.push_str(&sum_vars(k));
         }
         _ => {
             // matches in argument positions of a call chain
